@@ -16,7 +16,7 @@ RULE = (
     "in one message, reboot-only message, connection lost, watch, unwatch} x timing prefixes {next TTL deadline -RES/4, "
     "+RES/4, +0.5 s} for one service, one source, one listener; random: Hypothesis histories of 1..14 steps from 8 "
     "sources (3 unrelated IPv4/IPv6 ones, 5 that differ from one of them only in scope id / flow label / port / host), 'crowd' steps in which 5..140 further peers send one message each, both channels, 8 concrete services, filters with every wildcard combination, watch/unwatch/"
-    "watch-all of 4 listener objects, session counters that continue/reset/repeat, messages of 1..3 entries (offer TTL "
+    "watch-all of 4 listener objects, session counters that continue / jump far ahead / reset / repeat, messages of 1..3 entries (offer TTL "
     "from {1,2,3,0xFFFFFE,inf}, stop-offer, find), one in two of them padded in front or behind with offers of 14..40 filler services, unicast flag clear, connection loss, steps timed by delays or relative "
     "to pending TTL timers with offsets -4RES/-RES/4/+RES/4/+4RES or in the same iteration as the previous step. "
     "non-trivial = reboot evidence with an offer in the same message, or a step within RES of a TTL deadline, or "
@@ -31,8 +31,8 @@ ASSUMPTIONS = [
 ]
 BUDGET = {"quick": {"examples": 16000, "shrink": 300}, "thorough": {"examples": 640000, "shrink": 2000}}
 ENUM_LEN = {"quick": 4, "thorough": 6}
-EXHAUSTIVE = {"quick": "all 11^4 = 14641 histories of length 4 over the 8-event + 3-timing alphabet, each with and without a second filtered listener",
-              "thorough": "all 11^6 = 1771561 histories of length 6 over the 8-event + 3-timing alphabet, each with and without a second filtered listener"}
+EXHAUSTIVE = {"quick": "all 11^4 = 14641 histories of length 4 over the 8-event + 3-timing alphabet, each with and without a second filtered listener and appended to 3 start histories in which offers arrived or were withdrawn while nobody watched",
+              "thorough": "all 11^6 = 1771561 histories of length 6 over the 8-event + 3-timing alphabet, each with and without a second filtered listener and appended to 3 start histories in which offers arrived or were withdrawn while nobody watched"}
 
 W = [0xFFFF, 0xFF, 0xFFFFFFFF]
 SERVICES = [(s, i, m, n) for s in (0x1000, 0x2000) for i in (0x0101, 0x0102) for m in (1, 2) for n in (0x10000,)] + [(0x1000, 0x0101, 1, 0x10007)]
@@ -53,8 +53,13 @@ def svc(i):
 ALPHA = ["o1", "oinf", "stop", "rb+o", "rb", "lost", "watch", "unwatch", "T-q", "T+q", "+0.5"]
 
 
+# start states the exhaustive words are appended to: besides the empty history, histories in which the listener has
+# gone and offers went on arriving (or were withdrawn) while nobody watched
+PRELUDES = [["watch", "o1", "unwatch", "o1"], ["watch", "oinf", "unwatch", "stop"], ["watch", "o1", "unwatch", "+0.5", "oinf"]]
+
+
 def enum_size(tier):
-    return 2 * len(ALPHA) ** ENUM_LEN[tier]
+    return (2 + len(PRELUDES)) * len(ALPHA) ** ENUM_LEN[tier]
 
 
 def _alpha_steps(word):
@@ -85,11 +90,13 @@ def _alpha_steps(word):
 
 
 def enum_case(tier, idx):
-    idx, variant = divmod(idx, 2)
+    idx, variant = divmod(idx, 2 + len(PRELUDES))
     word = []
     for _ in range(ENUM_LEN[tier]):
         idx, r = divmod(idx, len(ALPHA))
         word.append(ALPHA[r])
+    if variant >= 2:
+        return {"steps": _alpha_steps(PRELUDES[variant - 2] + word)}
     # a listener that watches from the start, so that short histories are not all trivial
     # even indexes: a second listener with a filter watches from the start; odd: only the watch-all listener of the alphabet
     pre = [{"op": "watch", "l": 1, "filter": [0x1000, 0x0101, 1, 0xFFFFFFFF], "when": ["d", 0.01]}] if variant == 0 else []
@@ -125,7 +132,7 @@ def _step(draw):
     if op == "msg":
         # sources 0-2 are unrelated, 3-7 differ from one of them in one component of the socket address only
         s.update(src=draw(st.sampled_from([0, 1, 2, 0, 1, 2, 0, 1, 2, 3, 4, 5, 6, 7])), mc=draw(st.booleans()), entries=draw(st.lists(_entry(), min_size=1, max_size=3)),
-                 sess=draw(st.sampled_from(["next", "next", "next", "reset", "repeat"])))
+                 sess=draw(st.sampled_from(["next", "next", "next", "next", "next", "next", "reset", "reset", "repeat", "repeat", "far"])))
         pad = draw(st.sampled_from([0, 0, 0, 0, 0, 0, 14, 16, 20, 33, 40]))
         if pad:
             # a message of many entries: offers of `pad` filler services in front of or behind the entries above
@@ -274,6 +281,8 @@ def run_case(case):
                     flag, sid = True, 1
                 elif s.get("sess") == "repeat" and sid >= 1:
                     pass
+                elif s.get("sess") == "far" and sid < 0x6000:
+                    sid += 0x9000    # the source has sent many messages we did not see (ids need only increase)
                 else:
                     flag, sid = (flag, sid + 1) if sid < 0xFFFF else (False, 1)
                 sess[k] = (flag, sid)
